@@ -550,7 +550,7 @@ def c12_cut_points(tier, seed, n=40):
                 if st == "hang":
                     # termination is C13's business: only a hang that the uninterrupted run does not have is a
                     # difference between the restored and the original interpreter
-                    st2, _o = core._impl_worker((flavor, c, 30))
+                    st2, _o = core.impl_isolated((flavor, c, 30))
                     if st2 == "hang":
                         stats["base-run-hangs"] = stats.get("base-run-hangs", 0) + 1
                         continue
